@@ -267,6 +267,14 @@ func symSprintf(fr *frame, format string, args []value, wraps *[]iface) string {
 				}
 			}
 			spec = spec[:len(spec)-1] + "v"
+			verb = 'v'
+		}
+		// a pointer printed by reflection shows addresses: every printed
+		// address is a distinct, run-dependent value
+		if ai, ok := a.(iface); ok && ai.t != nil && printsAddress(i, ai.t, verb) {
+			fr.i.ex.addrN++
+			sb.WriteString(fmt.Sprintf("&{0xc%09x}", 0x1000+16*fr.i.ex.addrN))
+			continue
 		}
 		// unwrap interface for symbolic payloads
 		raw := a
@@ -1228,4 +1236,50 @@ func cmpCompareF(fr *frame, a, b value) value {
 		" (ite (or (fp.isNaN " + x + ") (fp.lt " + x + " " + y + ")) " + m1 +
 		" (ite (or (fp.isNaN " + y + ") (fp.gt " + x + " " + y + ")) " + p1 + " " + z + ")))"
 	return symI{t, types.Int}
+}
+
+// printsAddress: fmt prints a value of dynamic type t under verb by
+// reflection (no Error/String method applies to the verb) and t is a pointer
+// to a struct that holds pointers, interfaces, channels or functions, whose
+// addresses end up in the output.
+func printsAddress(i *interpreter, t types.Type, verb byte) bool {
+	ptr, ok := t.Underlying().(*types.Pointer)
+	if !ok {
+		return false
+	}
+	if strings.IndexByte("vsxXq", verb) >= 0 {
+		if lookupMethodByName(i, t, "Error") != nil || lookupMethodByName(i, t, "String") != nil {
+			return false
+		}
+	}
+	st, ok := ptr.Elem().Underlying().(*types.Struct)
+	if !ok {
+		return verb != 'v' && verb != 's' || true // a pointer to a non-struct prints as an address
+	}
+	seen := map[types.Type]bool{}
+	var has func(t types.Type) bool
+	has = func(t types.Type) bool {
+		if seen[t] {
+			return false
+		}
+		seen[t] = true
+		switch u := t.Underlying().(type) {
+		case *types.Pointer, *types.Chan, *types.Signature, *types.Interface:
+			return true
+		case *types.Map:
+			return has(u.Key()) || has(u.Elem())
+		case *types.Slice:
+			return has(u.Elem())
+		case *types.Array:
+			return has(u.Elem())
+		case *types.Struct:
+			for k := 0; k < u.NumFields(); k++ {
+				if has(u.Field(k).Type()) {
+					return true
+				}
+			}
+		}
+		return false
+	}
+	return has(st)
 }
